@@ -227,7 +227,7 @@ impl Monitor for Mon {
                 RClass::Error(401) if awaiting_target => {
                     let Target::Req(i) = to else { return };
                     let complete = reply.chal.map(|c| c.realm && c.nonce != NonceKind::Absent && c.pas != PasKind::Unsupported).unwrap_or(false);
-                    let consistent = reply.chal.map(|c| (c.pas != PasKind::Absent) == matches!(c.nonce, NonceKind::Cookie(true, _, _))).unwrap_or(false);
+                    let consistent = reply.chal.map(|c| (c.pas != PasKind::Absent) == matches!(c.nonce, NonceKind::Cookie(true, _, _) | NonceKind::CookieX(true, _, _))).unwrap_or(false);
                     if any_recv {
                         rep.violate("challenge-delivered-as-a-response", "401", replay());
                     } else if complete && consistent && reply.mac == RMac::None {
@@ -243,7 +243,7 @@ impl Monitor for Mon {
                     if any_recv {
                         rep.violate("challenge-delivered-as-a-response", "438", replay());
                     } else if challenge_before.is_some()
-                        && reply.chal.map(|c| c.nonce != NonceKind::Absent && (c.pas != PasKind::Absent) == matches!(c.nonce, NonceKind::Cookie(true, _, _))).unwrap_or(false)
+                        && reply.chal.map(|c| c.nonce != NonceKind::Absent && (c.pas != PasKind::Absent) == matches!(c.nonce, NonceKind::Cookie(true, _, _) | NonceKind::CookieX(true, _, _))).unwrap_or(false)
                         && reply.mac == RMac::None
                     {
                         if !retry_now.contains(i) {
@@ -320,6 +320,9 @@ impl Monitor for Mon {
             // case-sensitive in the realm: nothing derived for an earlier realm may be reused)
             Reply::plain(RClass::Error(401)).with_chal(Chal { realm: true, nonce: NonceKind::Cookie(true, true, g), pas: PasKind::Md5Sha256, realm_v: 1, order: 0 }),
             Reply::plain(RClass::Error(401)).with_chal(Chal { realm: true, nonce: NonceKind::Plain(g), pas: PasKind::Absent, realm_v: 2, order: 0 }),
+            // cookie nonces that also set feature bits nobody has assigned yet
+            Reply::plain(RClass::Error(401)).with_chal(Chal { realm: true, nonce: NonceKind::CookieX(true, true, g), pas: PasKind::Md5Sha256, realm_v: 0, order: 0 }),
+            Reply::plain(RClass::Error(401)).with_chal(Chal { realm: true, nonce: NonceKind::CookieX(false, true, g), pas: PasKind::Absent, realm_v: 0, order: 0 }),
             // the same challenge attributes in the opposite order (PASSWORD-ALGORITHMS, NONCE, REALM)
             Reply::plain(RClass::Error(401)).with_chal(Chal { realm: true, nonce: NonceKind::Cookie(true, false, g), pas: PasKind::Md5Sha256, realm_v: 0, order: 1 }),
             Reply::plain(RClass::Error(401)).with_chal(Chal { realm: true, nonce: NonceKind::Cookie(true, true, g), pas: PasKind::Sha256Md5, realm_v: 0, order: 1 }),
@@ -336,6 +339,7 @@ impl Monitor for Mon {
         // 438 with a new nonce carrying the same cookie bits as the current challenge
         let nk = match self.chal_kind.map(|c| c.nonce) {
             Some(NonceKind::Cookie(p, a, _)) => NonceKind::Cookie(p, a, g + 10),
+            Some(NonceKind::CookieX(p, a, _)) => NonceKind::CookieX(p, a, g + 10),
             _ => NonceKind::Plain(g + 10),
         };
         // (an RFC server repeats PASSWORD-ALGORITHMS whenever its nonce sets the password-algorithms bit)
@@ -418,7 +422,7 @@ pub fn run(ctx: &RunCtx) -> i32 {
         rep,
         Finish {
             level: "model_checking",
-            rule: format!("breadth-first exploration of the real long-term client on both transports, up to {} request/response exchanges (depth {}), over {{Send (empty application list, or one that pre-populates USERNAME / REALM / NONCE / PASSWORD-ALGORITHM(S) / USERHASH / both integrity attributes), Indicate, Timer, AdvanceTo(beyond), Deliver of 27 server behaviours (two 401 challenges and one 438 also with their attributes in the opposite order): 401 x {{plain nonce; the realm in another letter case with cookie nonce + anonymity; another realm; cookie nonce with password-algorithms bit and [MD5,SHA256] / [MD5] / [SHA256,MD5]+anonymity / unsupported list; anonymity only; missing realm; missing nonce; algorithms bit without the attribute}}, 438 with a new nonce x {{no MAC, MI, SHA256}} and without nonce, success x {{none, MI, SHA256, MI / SHA256 under another password}}, errors 400/420/500 with and without integrity, an authenticated indication}}. Replies are built by the reference codec and keyed from the request's PASSWORD-ALGORITHM; server replies are not restricted to what an RFC server would send next. Monitor: first request free of the eight credential attributes; a complete 401 / a 438 with nonce yields Retry; every later request is judged by the independent RFC 8489 9.2.4 acceptance function against the most recent challenge (username or userhash, realm, nonce, password algorithms echo and choice, MAC under MD5/SHA-256(user:realm:password)) and must use SHA-256 integrity iff algorithms were offered; success and ordinary error responses are delivered only if a MAC of the right kind verifies, and are delivered when the request was acceptable and the MAC verifies; indications refused both ways; the password's bytes occur in no packet", exchanges, 2 * exchanges + 1),
+            rule: format!("breadth-first exploration of the real long-term client on both transports, up to {} request/response exchanges (depth {}), over {{Send (empty application list, or one that pre-populates USERNAME / REALM / NONCE / PASSWORD-ALGORITHM(S) / USERHASH / both integrity attributes), Indicate, Timer, AdvanceTo(beyond), Deliver of 29 server behaviours (two 401 challenges whose cookie nonce also sets unassigned feature bits) (two 401 challenges and one 438 also with their attributes in the opposite order): 401 x {{plain nonce; the realm in another letter case with cookie nonce + anonymity; another realm; cookie nonce with password-algorithms bit and [MD5,SHA256] / [MD5] / [SHA256,MD5]+anonymity / unsupported list; anonymity only; missing realm; missing nonce; algorithms bit without the attribute}}, 438 with a new nonce x {{no MAC, MI, SHA256}} and without nonce, success x {{none, MI, SHA256, MI / SHA256 under another password}}, errors 400/420/500 with and without integrity, an authenticated indication}}. Replies are built by the reference codec and keyed from the request's PASSWORD-ALGORITHM; server replies are not restricted to what an RFC server would send next. Monitor: first request free of the eight credential attributes; a complete 401 / a 438 with nonce yields Retry; every later request is judged by the independent RFC 8489 9.2.4 acceptance function against the most recent challenge (username or userhash, realm, nonce, password algorithms echo and choice, MAC under MD5/SHA-256(user:realm:password)) and must use SHA-256 integrity iff algorithms were offered; success and ordinary error responses are delivered only if a MAC of the right kind verifies, and are delivered when the request was acceptable and the MAC verifies; indications refused both ways; the password's bytes occur in no packet", exchanges, 2 * exchanges + 1),
             assumptions: vec!["three user / password sets (short ASCII; 70-byte user name with 129-byte password; non-ASCII user name with a password rewritten by OpaqueString enforcement), the latter two one exchange shallower; three realms (one differing from the first only in letter case)".into(), "a 438 carries a nonce with the same cookie bits as the challenge in force (and repeats PASSWORD-ALGORITHMS when the bit is set); a reply to a request sent under an older challenge is only required not to be delivered unauthenticated".into(), "inconsistent challenges (PASSWORD-ALGORITHMS without the cookie bit or vice versa) are explored for robustness but requests are not judged against them".into()],
             required_symbols: vec!["bfs-configs", "first-request-clean", "retry-after-401", "retry-after-438", "request-accepted-by-reference-server", "authenticated-response-delivered", "unauthenticated-response-rejected", "indication-refused", "indication-not-delivered"],
             min_outcomes: 8,
